@@ -187,6 +187,9 @@ class StopThenAwait(nfa.Spec):
 
 
 def check_awaiters(ctx, fx):
+    # a handle awaited to completion stays a valid awaiter / can be cloned for later awaiters (shared with C14)
+    from props import c14
+    c14.check_inplace_polls(ctx, fx, "R04.4")
     # Addr as Future: poll forwards the poll of its RunningFuture
     pf = fx.impl_fn("core::future::future::Future", "addr::Addr<", "poll")
     if ctx.require(pf is not None, "R04.4", "Addr::poll", "impl Future for Addr not found"):
